@@ -212,7 +212,7 @@ theorem resolver_errors_mono (env : Env) : ∀ fuel : Nat,
       | cons ns rest =>
         simp only [lookupExact]
         split
-        · exact iv _ _
+        · exact (iv _ _).trans (ie _ _ _ _)
         · exact ie _ _ _ _
     have hpf : ∀ st n ctx ps, Ext st (lookupPrefixes env (fuel + 1) st n ctx ps).1 := by
       intro st n ctx ps
